@@ -512,14 +512,73 @@ func genNaiveCase(rnd *hx.Rand) []string {
 	dfName := []string{"sha256", "md5"}[rnd.Intn(2)]
 	g.df = digest.MustNewFunction("verif", digestFunctions[dfName])
 	g.hashLen = hashLens[dfName]
-	g.lines = []string{fmt.Sprintf("opt part=naive df=%s cache=%d hardlink=%d hlmax=%d", dfName, []int{0, 8}[rnd.Intn(2)], rnd.Intn(2), []int{1, 3, 1000}[rnd.Intn(3)])}
+	hardlink := rnd.Pick(1, 3)
+	g.lines = []string{fmt.Sprintf("opt part=naive df=%s cache=%d hardlink=%d hlmax=%d hlsize=%d", dfName, []int{0, 8}[rnd.Intn(2)], hardlink,
+		[]int{1, 3, 1000}[rnd.Intn(3)], []int{30, 100, 1 << 20}[rnd.Intn(3)])}
 	root := g.genDAG(2+rnd.Intn(4), 2+rnd.Intn(7))
-	for i, n := 0, 2+rnd.Intn(2); i < n; i++ {
+	for i, n := 0, 2+rnd.Intn(4); i < n; i++ {
 		d := root
-		if rnd.Chance(1, 3) {
+		if rnd.Chance(1, 4) {
 			d = g.dirs[rnd.Intn(len(g.dirs))]
 		}
 		g.lines = append(g.lines, "nmerge "+tokDig(d.hash, d.size))
+		// between two actions: the cache directory is cleaned up behind the worker's back,
+		// entries are replaced by directories, the storage loses blobs
+		for k := rnd.Intn(4); k > 0 && hardlink == 1; k-- {
+			f := g.files[rnd.Intn(len(g.files))]
+			x := strconv.Itoa(rnd.Intn(2))
+			switch rnd.Pick(70, 10, 20) {
+			case 0:
+				g.lines = append(g.lines, "hrm "+tokDig(f.hash, f.size)+" "+x)
+			case 1:
+				g.lines = append(g.lines, "hmkdir "+tokDig(f.hash, f.size)+" "+x)
+			default:
+				g.lines = append(g.lines, "casmiss "+tokDig(f.hash, f.size)+" "+strconv.Itoa(rnd.Intn(2)))
+			}
+		}
+		if hardlink == 1 && rnd.Chance(1, 3) { // a cleaner empties the whole cache
+			for _, f := range g.files {
+				g.lines = append(g.lines, "hrm "+tokDig(f.hash, f.size)+" 0", "hrm "+tokDig(f.hash, f.size)+" 1")
+			}
+		}
+	}
+	return g.lines
+}
+
+// genHardlinkCase: single GetFile calls of the hard-linking fetcher, compared with
+// the model of its bookkeeping.
+func genHardlinkCase(rnd *hx.Rand) []string {
+	g := &generator{rnd: rnd, blobs: map[string][]byte{}}
+	g.df = digest.MustNewFunction("verif", digestFunctions["sha256"])
+	g.hashLen = 64
+	g.lines = []string{fmt.Sprintf("opt part=hardlink df=sha256 hlmax=%d hlsize=%d", []int{0, 1, 2, 3, 1000}[rnd.Intn(5)], []int{0, 20, 45, 100000}[rnd.Intn(4)])}
+	for i, n := 0, 3+rnd.Intn(4); i < n; i++ {
+		b := make([]byte, rnd.Intn(25))
+		for j := range b {
+			b[j] = byte(rnd.Intn(256))
+		}
+		h, s := g.sum(b)
+		g.files = append(g.files, genFile{h, s})
+		g.lines = append(g.lines, "blob "+tokDig(h, s)+" "+tokBytes(string(b)))
+	}
+	var fetched []string
+	for i, n := 0, 15+rnd.Intn(40); i < n; i++ {
+		f := g.files[rnd.Intn(len(g.files))]
+		arg := tokDig(f.hash, f.size) + " " + strconv.Itoa(rnd.Intn(2))
+		switch {
+		case len(fetched) > 0 && rnd.Chance(1, 5):
+			g.lines = append(g.lines, "hrm "+fetched[rnd.Intn(len(fetched))])
+		case len(fetched) > 0 && rnd.Chance(1, 15):
+			g.lines = append(g.lines, "hmkdir "+fetched[rnd.Intn(len(fetched))])
+		case rnd.Chance(1, 8):
+			g.lines = append(g.lines, "casmiss "+tokDig(f.hash, f.size)+" "+strconv.Itoa(rnd.Intn(2)))
+		default:
+			if len(fetched) > 0 && rnd.Chance(1, 3) {
+				arg = fetched[rnd.Intn(len(fetched))]
+			}
+			g.lines = append(g.lines, "hget "+arg)
+			fetched = append(fetched, arg)
+		}
 	}
 	return g.lines
 }
